@@ -39,6 +39,17 @@ struct Opts {
     rows: Option<Vec<Vec<V>>>,
 }
 
+/// at most 3 kept witnesses per signature (the report keeps 25 in total); every occurrence is counted
+fn violate(rep: &Report, sig: &str, w: vcommon::Json) {
+    let key = format!("violations_by_signature/{sig}");
+    if rep.get_count(&key) < 3 {
+        rep.violation(sig, w);
+    } else {
+        rep.count("violations_not_kept(same signature)", 1);
+    }
+    rep.count(&key, 1);
+}
+
 fn flip(v: &V) -> V {
     match v {
         V::Null => V::B(true),
@@ -220,14 +231,14 @@ fn check_expr(cx: &Cx, env: &Env, tag: &str, raw: Expr, rng: &mut Rng, case_no: 
             if let (Some(fv), Some(sv)) = (&eng[r], &single.vals[r]) {
                 compared += 1;
                 if !fv.same(sv) {
-                    rep.violation(&format!("batch-vs-single-row/{tag}"), witness_base("full-batch value differs from the value of the same row evaluated as a 1-row batch", r, json!({"batch_value": fv.to_json(), "single_row_value": sv.to_json()})));
+                    violate(rep, &format!("batch-vs-single-row/{tag}"), witness_base("full-batch value differs from the value of the same row evaluated as a 1-row batch", r, json!({"batch_value": fv.to_json(), "single_row_value": sv.to_json()})));
                     break;
                 }
             }
         }
         if let Some(sdt) = &single.dt {
             if sdt != a.data_type() {
-                rep.violation(&format!("batch-vs-single-row-data-type/{tag}"), json!({"family": tag, "expr": text, "batch_type": a.data_type().to_string(), "single_row_type": sdt.to_string()}));
+                violate(rep, &format!("batch-vs-single-row-data-type/{tag}"), json!({"family": tag, "expr": text, "batch_type": a.data_type().to_string(), "single_row_type": sdt.to_string()}));
             }
         }
     } else {
@@ -266,13 +277,13 @@ fn check_expr(cx: &Cx, env: &Env, tag: &str, raw: Expr, rng: &mut Rng, case_no: 
                             if explained_by_zero_sign(row, &eng[i]) {
                                 rep.count(&format!("rows_membership_float_zero_sign/{construct}"), 1);
                                 if !zero_sign_reported && construct != "nullif" && construct != "other" {
-                                    rep.violation(&format!("membership-float-zero-sign/{construct}"), w);
+                                    violate(rep, &format!("membership-float-zero-sign/{construct}"), w);
                                 }
                                 zero_sign_reported = true;
                                 all_defined = false;
                                 continue;
                             }
-                            rep.violation(&format!("vectorized-vs-reference/{tag}"), w);
+                            violate(rep, &format!("vectorized-vs-reference/{tag}"), w);
                             break;
                         }
                     }
@@ -282,12 +293,12 @@ fn check_expr(cx: &Cx, env: &Env, tag: &str, raw: Expr, rng: &mut Rng, case_no: 
                         if explained_by_zero_sign(row, &eng[i]) {
                             rep.count(&format!("rows_membership_float_zero_sign/{construct}"), 1);
                             if !zero_sign_reported && construct != "nullif" && construct != "other" {
-                                rep.violation(&format!("membership-float-zero-sign/{construct}"), w);
+                                violate(rep, &format!("membership-float-zero-sign/{construct}"), w);
                             }
                             zero_sign_reported = true;
                             continue;
                         }
-                        rep.violation(&format!("engine-error-where-reference-defined/{tag}"), w);
+                        violate(rep, &format!("engine-error-where-reference-defined/{tag}"), w);
                         break;
                     }
                     (Err(RErr::Error), Some(_)) => {
@@ -303,7 +314,7 @@ fn check_expr(cx: &Cx, env: &Env, tag: &str, raw: Expr, rng: &mut Rng, case_no: 
             if opts.guard && all_defined {
                 rep.count("guard_templates_checked", 1);
                 if let Err(e) = &full {
-                    rep.violation(&format!("case-raises-from-unselected-branch/{tag}"), json!({"family": tag, "expr": text, "physical": format!("{pe}"), "schema": env.schema_json(), "error": e, "rows": rows.iter().map(|r| row_json(env, r, &refs)).take(12).collect::<Vec<_>>() }));
+                    violate(rep, &format!("case-raises-from-unselected-branch/{tag}"), json!({"family": tag, "expr": text, "physical": format!("{pe}"), "schema": env.schema_json(), "error": e, "rows": rows.iter().map(|r| row_json(env, r, &refs)).take(12).collect::<Vec<_>>() }));
                 }
             }
         }
@@ -314,7 +325,7 @@ fn check_expr(cx: &Cx, env: &Env, tag: &str, raw: Expr, rng: &mut Rng, case_no: 
                 rep.count("guard_templates_without_reference", 1);
                 if let Err(e) = &full {
                     // guarded casts are outside the reference: the guard makes every row defined by construction
-                    rep.violation(&format!("case-raises-from-unselected-branch/{tag}"), json!({"family": tag, "expr": text, "physical": format!("{pe}"), "error": e, "schema": env.schema_json()}));
+                    violate(rep, &format!("case-raises-from-unselected-branch/{tag}"), json!({"family": tag, "expr": text, "physical": format!("{pe}"), "error": e, "schema": env.schema_json()}));
                 }
             }
         }
@@ -322,7 +333,7 @@ fn check_expr(cx: &Cx, env: &Env, tag: &str, raw: Expr, rng: &mut Rng, case_no: 
     if opts.try_cast {
         for r in 0..n {
             if single.vals[r].is_none() {
-                rep.violation(&format!("try-cast-raises/{tag}"), witness_base("TRY_CAST raises instead of returning NULL", r, json!({"batch_error": full.as_ref().err()})));
+                violate(rep, &format!("try-cast-raises/{tag}"), witness_base("TRY_CAST raises instead of returning NULL", r, json!({"batch_error": full.as_ref().err()})));
                 break;
             }
         }
@@ -354,7 +365,7 @@ fn check_expr(cx: &Cx, env: &Env, tag: &str, raw: Expr, rng: &mut Rng, case_no: 
                         let sv = cell_v(a.as_ref(), j);
                         compared += 1;
                         if !sv.same(orig_v) {
-                            rep.violation(
+                            violate(rep, 
                                 &format!("scalar-vs-array/{tag}"),
                                 witness_base("value changes when column operands are replaced by equal literals", i, json!({"folded_expr": format!("{folded}"), "array_form": orig_v.to_json(), "scalar_form": sv.to_json()})),
                             );
@@ -382,7 +393,7 @@ fn check_expr(cx: &Cx, env: &Env, tag: &str, raw: Expr, rng: &mut Rng, case_no: 
             rep.seen("selection_masks", mname);
             match eval_sel(&pe, &batch, &mask) {
                 Err(e) => {
-                    rep.violation(&format!("evaluate-selection-raises/{tag}"), json!({"family": tag, "expr": text, "physical": format!("{pe}"), "mask": mname, "error": e, "schema": env.schema_json(), "note": "evaluate(filter(batch, mask)) succeeds"}));
+                    violate(rep, &format!("evaluate-selection-raises/{tag}"), json!({"family": tag, "expr": text, "physical": format!("{pe}"), "mask": mname, "error": e, "schema": env.schema_json(), "note": "evaluate(filter(batch, mask)) succeeds"}));
                     break;
                 }
                 Ok(sa) => {
@@ -395,7 +406,7 @@ fn check_expr(cx: &Cx, env: &Env, tag: &str, raw: Expr, rng: &mut Rng, case_no: 
                             compared += 1;
                             let a = if cx.selftest && case_no % 11 == 1 && k == 1 { flip(&a) } else { a };
                             if !a.same(&b) {
-                                rep.violation(
+                                violate(rep, 
                                     &format!("evaluate-selection-differs/{tag}"),
                                     witness_base("evaluate_selection differs from evaluate(filter(batch, mask)) on a selected row", i, json!({"mask": mname, "selection": a.to_json(), "filtered": b.to_json()})),
                                 );
@@ -922,10 +933,10 @@ fn run(args: &Args) -> i32 {
     }
 
     // ---- seeded random tail
-    let n_rand = args.bound("random", 5000, 500_000) / div as u64;
+    let n_rand = args.bound("random", 8000, 500_000) / div as u64;
     if only.is_none() || want("random") {
         vcommon::par::run(args.workers, 0..n_rand, |i| {
-            if rep.violation_count() > 60 {
+            if rep.violation_count() > 400 {
                 return;
             }
             let mut rng = Rng::derive(args.seed, &[1, i]);
